@@ -79,6 +79,22 @@ class Normalizer(ast.NodeTransformer):
             e.operand = self._test(e.operand)
         return e
 
+    def visit_For(self, node):
+        self.generic_visit(node)
+        it = node.iter
+        if isinstance(it, (ast.ListComp, ast.GeneratorExp)) and len(it.generators) == 1 and not node.orelse and not any(isinstance(n, (ast.Break,)) for b in node.body for n in ast.walk(b)):
+            g = it.generators[0]
+            bind = ast.copy_location(ast.Assign(targets=[node.target], value=it.elt), node)
+            inner = [bind] + list(node.body)
+            # `x = x` bindings (the comprehension just filters) are dropped
+            if isinstance(node.target, ast.Name) and isinstance(it.elt, ast.Name) and node.target.id == it.elt.id:
+                inner = list(node.body)
+            if g.ifs:
+                cond = g.ifs[0] if len(g.ifs) == 1 else ast.BoolOp(op=ast.And(), values=list(g.ifs))
+                inner = [ast.copy_location(ast.If(test=cond, body=inner, orelse=[]), node)]
+            return ast.copy_location(ast.For(target=g.target, iter=g.iter, body=inner, orelse=[]), node)
+        return node
+
     def visit_While(self, node):
         self.generic_visit(node)
         node.test = self._test(node.test)
@@ -252,7 +268,7 @@ class Normalizer(ast.NodeTransformer):
         for st in stmts:
             if (
                 merged and isinstance(merged[-1], ast.Assign) and len(merged[-1].targets) == 1 and isinstance(merged[-1].targets[0], ast.Name)
-                and isinstance(merged[-1].value, ast.GeneratorExp)
+                and (isinstance(merged[-1].value, ast.GeneratorExp) or (isinstance(st, ast.Return) and isinstance(merged[-1].value, ast.Call) and isinstance(merged[-1].value.func, ast.Name) and merged[-1].value.func.id == "next"))
             ):
                 g = merged[-1].targets[0].id
                 uses = [n for n in ast.walk(st) if isinstance(n, ast.Name) and n.id == g]
